@@ -179,6 +179,10 @@ class SmtSys:
                     if len(viols) > 4:
                         break
             try:
+                # a caller may read root_hash at any time: do so on the object that will receive the update
+                if p.root_hash != snap[0] and not viols:
+                    viols.append(V("C15", "proof_root_out_of_sync", "the proof's root hash differs from the tree's root hash before the update",
+                                   field="root", event="before_update"))
                 p.update(op[1], v, hashes)
             except Exception as e:  # noqa
                 viols.append(V("C15", "update_raised", f"update with the full list raised {type(e).__name__}", event=op[0], key=op[1], exc=repr(e)[:120]))
